@@ -45,6 +45,9 @@ CHECKS = {
  'C15': ('fault_enumeration', 'sctrace', 'every-single-fault injection at syscall level (strace error injection) with a fresh-process byte-identity oracle; syscall monitor for read-only calls',
          'For each mutating scenario every syscall between the markers that can fail is made to fail once with each applicable errno (ENOSPC, EIO, EACCES, EMFILE); a reported failure must leave the store byte-identical, a reported success must be complete; hostile auxiliary data must survive updates byte for byte, set-admin must keep the inode; semantically failing and read-only calls must issue no mutating syscall on the store and leave it byte- and inode-identical.',
          'Single faults only; the fault is injected at the syscall boundary (the syscall does not execute). Known findings listed in known-findings.json.', '5 C15'),
+ 'C06': ('exploration', 'ovl', 'reference authorisation table + sequential store model as oracle over the enumerated endpoint x credential x target x body-shape matrix, with byte-level directory snapshots around every request',
+         'The matrix (about 1800 cells per state incl. expired/future/tampered/other-instance/demoted-admin/removed-user tokens, case-variant and invalid names, malformed bodies, ambiguous update credentials) is evaluated in several store states reached by random walks of allowed requests; refused requests must return a non-success status, disclose no list and leave the directory byte-identical; allowed ones must have exactly the model effect.',
+         'Handlers are driven in-process (httptest) with a test-owned session factory (the only way to mint expired tokens) plus a subset through newWebHandler itself.', '5 C06'),
 }
 
 def main():
